@@ -178,8 +178,12 @@ def c16_jobs(tier, seed):
         for s in core[d % stride::stride]:
             J.append(dom_job(d, s, "c16q", budget=400 if tier == "quick" else 1200, tier=tier))
     for d in (22, 23):
-        for s in core:
+        for s in core + gen.COW_CORE:
             J.append(dom_job(d, s, "c16w", budget=400, tier=tier))
+        for s in gen.COW_CORE:
+            J.append(dom_job(d, s, "c16q", budget=400, tier=tier))
+    for s in gen.COW_CORE:
+        J.append(dom_job(1, s, "c16q", budget=400, tier=tier))
         for s in core[d % 3::3]:
             J.append(dom_job(d, s, "sound", budget=400, tier=tier))
     # copy-then-mutate histories in sound mode: every observation of the untouched value is unchanged
